@@ -138,6 +138,12 @@ class TwoEndedLink(link.Link):
         for vert in self._vertices:
             if (vert is not None) and (self not in vert.links):
                 vert.add_to_link(self)
+        # the end that was not replaced has a different neighbour now, although
+        # its own list of links is unchanged: its cached answers must go too
+        for vert in (*previous, *self._vertices):
+            if vert is not None:
+                # pylint: disable-next=protected-access
+                vert._qa_neighbors_invalidate()
 
     def other(self, end: Vertex) -> Vertex | None:
         """
